@@ -23,13 +23,21 @@ Import ListNotations.
 Open Scope N_scope.
 
 (* ---------- blocks and chains (head first) ---------- *)
-Record block := mkB { num : N; bid : N; par : N; okb : bool }.
+(* okb: passes SanityCheckNewHeight.  stb: its state update applies on the head state, i.e.
+   Blockchain.Store accepts it when it extends the head (a copy with a wrong OldRoot passes the
+   sanity checks - the block hash does not cover OldRoot - and is rejected only by Store). *)
+Record block := mkB { num : N; bid : N; par : N; okb : bool; stb : bool }.
 
 Definition beq (x y : block) : bool :=
-  (num x =? num y) && (bid x =? bid y) && (par x =? par y) && Bool.eqb (okb x) (okb y).
+  (num x =? num y) && (bid x =? bid y) && (par x =? par y) && Bool.eqb (okb x) (okb y)
+  && Bool.eqb (stb x) (stb y).
 Definition memb (b : block) (l : list block) : bool := existsb (beq b) l.
 (* a served block with a tampered field: same header identifiers, fails SanityCheckNewHeight *)
-Definition corrupt (b : block) : block := mkB (num b) (bid b) (par b) false.
+Definition corrupt (b : block) : block := mkB (num b) (bid b) (par b) false (stb b).
+(* a served copy whose state update does not apply (wrong OldRoot): sane, not storable *)
+Definition unstor (b : block) : block := mkB (num b) (bid b) (par b) (okb b) false.
+(* the source block a served copy stands for *)
+Definition gen (b : block) : block := mkB (num b) (bid b) (par b) true true.
 
 (* uint64 arithmetic of [remoteHeight - 1] and [block.Number - 2], wrap written out (numbers < 2^64) *)
 Definition W64 : N := 18446744073709551616.
@@ -106,7 +114,7 @@ Definition init : state := mkS [] [] 1 [] [] [] None RIdle false None [] [] [].
 
 Inductive event :=
 | SrcExtend | SrcReorg (d : nat)
-| FetchOk (h : N) | FetchErr (h : N) | FetchCorrupt (h : N)
+| FetchOk (h : N) | FetchErr (h : N) | FetchCorrupt (h : N) | FetchUnstorable (h : N)
 | FetchLatest | FetchStaleHead (b : block) | FetchLatestErr
 | ReorgCheck (h : N)
 | Verify (b : block) | VerifyFail (b : block)
@@ -149,8 +157,8 @@ Definition obox_empty (s : state) : bool := match obox s with [] => true | _ => 
 (* ---------- the transition function ---------- *)
 Definition new_block (c : list block) (id : N) : block :=
   match c with
-  | [] => mkB 0 id 0 true
-  | h :: _ => mkB (num h + 1) id (bid h) true
+  | [] => mkB 0 id 0 true true
+  | h :: _ => mkB (num h + 1) id (bid h) true true
   end.
 
 Definition stop_revert (s : state) : state := set_canc (set_rv s RIdle) true.
@@ -173,6 +181,11 @@ Definition step (s : state) (e : event) : option state :=
   | FetchCorrupt h =>
       match at_num (src s) h with
       | Some b => Some (set_infl s (corrupt b :: infl s))
+      | None => None
+      end
+  | FetchUnstorable h =>
+      match at_num (src s) h with
+      | Some b => Some (set_infl s (unstor b :: infl s))
       | None => None
       end
   (* --- isReverting: dataSource.BlockHeaderLatest --- *)
@@ -206,14 +219,17 @@ Definition step (s : state) (e : event) : option state :=
   | VerifyFail b => if memb b (infl s) && negb (okb b) then Some (set_canc s true) else None
   (* --- storeTask (skipped when the stream context is done) --- *)
   | StoreOk b =>
-      if negb (canc s) && is_idle (rv s) && obox_empty s && memb b (pend s) && extendsb (loc s) b
+      if negb (canc s) && is_idle (rv s) && obox_empty s && memb b (pend s) && extendsb (loc s) b && stb b
       then Some (do_store s b) else None
   | StoreParentMismatch b =>               (* ErrParentDoesNotMatchHead => revertTask(block.Number - 2) *)
       if negb (canc s) && is_idle (rv s) && obox_empty s && memb b (pend s) && mismatchb (loc s) b
-      then Some (set_rv s (RRun (wsub2 (num b)) None (EvSucc b) true)) else None
+      then Some (set_rv s (RRun (wsub2 (num b)) None (EvSucc (gen b)) true)) else None
   | StoreFail b =>                         (* any other Store error => resetStreams *)
+      (* wrong number, or the state update does not apply; the succession check (and with it
+         ErrParentDoesNotMatchHead) comes first: chain, currReorg and feeds are untouched *)
       if negb (canc s) && is_idle (rv s) && memb b (pend s)
-         && negb (extendsb (loc s) b) && negb (mismatchb (loc s) b)
+         && ((negb (extendsb (loc s) b) && negb (mismatchb (loc s) b))
+             || (extendsb (loc s) b && negb (stb b)))
       then Some (set_canc s true) else None
   (* --- revertTask loop: BlockByNumber(localHeader.Number) when head <= lastPossiblyValidHeight --- *)
   | RevFetchOk =>
@@ -303,7 +319,7 @@ Fixpoint run (s : state) (es : list event) : option state :=
 Fixpoint replay (c : list block) (l : list logent) : option (list block) :=
   match l with
   | [] => Some c
-  | LApp b :: l' => if extendsb c b && okb b then replay (b :: c) l' else None
+  | LApp b :: l' => if extendsb c b && okb b && stb b then replay (b :: c) l' else None
   | LRev b :: l' =>
       match c with
       | h :: r => if beq h b then replay r l' else None
@@ -396,7 +412,7 @@ Definition sched (s : state) : option event :=
           let h := next_h s in
           match at_num (pend s) h with
           | Some b =>
-              if extendsb (loc s) b then Some (StoreOk b)
+              if extendsb (loc s) b then (if stb b then Some (StoreOk b) else Some (StoreFail b))
               else if mismatchb (loc s) b then Some (StoreParentMismatch b)
               else Some (StoreFail b)
           | None =>
@@ -434,7 +450,7 @@ Fixpoint run_fair (n : nat) (s : state) : state :=
    still fail or be slow) *)
 Definition honest (e : event) : bool :=
   match e with
-  | SrcExtend | SrcReorg _ | FetchCorrupt _ | FetchStaleHead _ => false
+  | SrcExtend | SrcReorg _ | FetchCorrupt _ | FetchUnstorable _ | FetchStaleHead _ => false
   | _ => true
   end.
 Definition bad (s : state) : nat := length (filter (fun b => negb (memb b (src s))) (loc s)).
